@@ -592,7 +592,8 @@ Import ListNotations.
 Open Scope string_scope.
 Open Scope list_scope.
 From Dagrt Require Import GenC09 Kinds.
-Definition cfg0 : cfg := mkCfg c09_power_returns_kind c09_new_entry_marks c09_isnan_any c09_conflict_raises c09_state_exact c09_state_prefixes.
+Definition cfg0 : cfg := mkCfg c09_power_returns_kind c09_new_entry_marks c09_isnan_any c09_conflict_raises
+  c09_finder_restarts c09_matrix_need_arrays c09_state_exact c09_state_prefixes.
 Fixpoint tbl_eqb (a b : tbl) : bool :=
   match a, b with
   | [], [] => true
